@@ -93,7 +93,7 @@ class EventLoop:
 RUN_LOOP = 'BacktestTradingSession.run#for self.sim_engine#0'
 
 
-@harness('BacktestTradingSession.run', also=['C12'], props=['C14', 'C07', 'C16', 'C08'], layer='L4',
+@harness('BacktestTradingSession.run', also=['C12', 'C19', 'C09'], props=['C14', 'C07', 'C16', 'C08'], layer='L4',
          functions=['BacktestTradingSession.run', 'BacktestTradingSession._is_rebalance_event', 'BacktestTradingSession._update_equity_curve'])
 def session_run(c):
     """per clock event: broker.update(event time) first and exactly once; signals.update iff a signals collection is given
@@ -160,7 +160,7 @@ def session_run(c):
         c.ob('broker-updated-at-the-event-time', AND(*[t[1] == ts for t in T if t[0] == 'broker.update']), props=['C14', 'C07'])
         c.ob('signals-updated-iff-given-and-market-close', has('signals.update') == (close if has_signals else z3.BoolVal(False)), props=['C16', 'C14'])
         c.ob('signals-updated-at-the-event-time', AND(*[t[1] == ts for t in T if t[0] == 'signals.update']), props=['C16', 'C07'])
-        c.ob('rebalance-iff-scheduled-and-not-before-burn-in', has('qts') == reb)
+        c.ob('rebalance-iff-scheduled-and-not-before-burn-in', has('qts') == reb, props=['C14', 'C07', 'C16', 'C08', 'C19', 'C09'])
         c.ob('rebalance-at-the-event-time', AND(*[t[1] == ts for t in T if t[0] == 'qts']), props=['C14', 'C07'])
         c.ob('equity-point-iff-market-close-and-not-before-burn-in', has('equity.append') == z3.And(close, burn_ok))
         c.ob('equity-point-stamped-at-the-event-time', AND(*[t[1] == ts for t in T if t[0] == 'equity.append']))
